@@ -651,6 +651,9 @@ func (h *Harness) Ghost(kind, node string, req any) error {
 	case *proto.AddFollowerRequest:
 		term = q.Term
 		res, err = n.AddFollower(q)
+	case *proto.DeleteShardRequest:
+		term = q.Term
+		res, err = n.DeleteShard(q)
 	default:
 		return errors.New("unsupported ghost")
 	}
